@@ -521,7 +521,14 @@ fn apply_single_macro(
 
             // Substitute macros inside macro arguments
             let args = args.into_iter().try_fold(Vec::new(), |mut vec, arg| {
-                let subbed_text = apply_macros(arg, macro_defs, false, source_manager)?;
+                // Keep the macros that are currently being expanded disabled inside the arguments as well
+                let subbed_text = apply_macros_internal(
+                    arg.to_vec(),
+                    macro_defs,
+                    macro_disabled,
+                    false,
+                    source_manager,
+                )?;
                 vec.push(subbed_text);
                 Ok(vec)
             })?;
